@@ -507,6 +507,7 @@ type region struct {
 	isElem   bool
 	global   bool
 	ghostAll bool // the whole ghost map
+	sort     Sort // sort of the heap when known from the typed location ("" = unknown)
 }
 
 // evalRegions turns a modifies list into heap regions, evaluated in env's
@@ -556,7 +557,8 @@ func (vc *VC) evalRegions(env *Env, locs []Expr) ([]region, error) {
 			}
 			switch u := xv.Typ.Underlying().(type) {
 			case *types.Slice:
-				r := region{heap: elemHeapName(u.Elem()), ref: sBase(xv.T), isElem: true, whole: x.Lo == nil}
+				r := region{heap: elemHeapName(u.Elem()), ref: sBase(xv.T), isElem: true, whole: x.Lo == nil,
+					sort: arraySort(SInt, arraySort(SInt, vc.sortOf(u.Elem())))}
 				if x.Lo != nil {
 					lo, err := env.eval(x.Lo)
 					if err != nil {
@@ -656,11 +658,21 @@ func (vc *VC) havocRegions(st, pre *State, regs []region, pc Term) {
 			oldInner := sel(h, r.ref)
 			vc.assume(pc, T(SBool, "(forall ((j Int)) (! (=> (or (< j %s) (>= j %s)) (= (select %s j) (select %s j))) :pattern ((select %s j))))", r.lo.S, r.hi.S, nv.S, oldInner.S, nv.S))
 		}
-		st.heaps[r.heap] = vc.def("h", store(h, r.ref, nv))
+		if r.isElem {
+			// a nil slice (backing array 0) has no elements: nothing is havoced
+			st.heaps[r.heap] = vc.def("h", ite(eq(r.ref, tZero), h, store(h, r.ref, nv)))
+		} else {
+			st.heaps[r.heap] = vc.def("h", store(h, r.ref, nv))
+		}
 	}
 }
 
 func (vc *VC) guessHeapSort(r region) Sort {
+	// A heap first met in a modifies clause: use the sort implied by the typed
+	// location (slice element heaps are two-level arrays).
+	if r.sort != "" {
+		return r.sort
+	}
 	return arraySort(SInt, SInt)
 }
 
